@@ -205,12 +205,14 @@ local _lua_timeout_depth = 0
 -- wrapping its loop in pcall cannot swallow the abort.
 local _lua_timed_out = false
 
--- Sets the time limit for the invocation being started.  NOT exposed to
--- modules (_sandbox_phase2 captures it and removes it from the environment).
+-- Sets the time limit for the invocation being started and returns the
+-- nesting depth before it, which _lua_clear_timeout_hook() takes.  NOT exposed
+-- to modules (_sandbox_phase2 captures it and removes it from the environment).
 local function _lua_set_timeout(timeout)
-    _lua_timeout_depth = _lua_timeout_depth + 1
-    if _lua_timeout_depth > 1 then
-        return
+    local depth = _lua_timeout_depth
+    _lua_timeout_depth = depth + 1
+    if depth > 0 then
+        return depth
     end
     _lua_timed_out = false
     if timeout ~= nil and timeout > 0.01 and timeout < _lua_max_time then
@@ -251,15 +253,20 @@ local function _lua_set_timeout(timeout)
         end
     end
     debug.sethook(hook, "", 1000)
+    return depth
 end
 
-local function _lua_clear_timeout_hook()
-    _lua_timeout_depth = _lua_timeout_depth - 1
-    if _lua_timeout_depth <= 0 then
-        _lua_timeout_depth = 0
-        _lua_timed_out = false
+-- Ends the invocation that got `depth` from _lua_set_timeout().  The hook of
+-- an exceeded limit keeps raising its error until it is removed, also in here:
+-- the hook is removed first (nothing after that call can be interrupted), the
+-- depth is set rather than counted down, so the function can simply be called
+-- again when it was interrupted.
+local function _lua_clear_timeout_hook(depth)
+    if depth <= 0 then
         debug.sethook()
+        _lua_timed_out = false
     end
+    _lua_timeout_depth = depth
 end
 
 -- Wiktionary uses a Module named "debug".  Force it to be loaded by
